@@ -67,12 +67,18 @@ class SchedLock(object):
         if self.reentrant and self.owner == w.name:
             self.count += 1
             return True
+        timed = timeout is not None and timeout >= 0
         while self.owner is not None:
             if not blocking:
                 return False
             w.state = "blocked"
             w.blocked_on = self
+            w.timed_out = False
+            w.block_timed = timed
             sched.switch_out(w)
+            if w.timed_out:
+                # nothing else could run any more: the timeout of a timed acquire elapses
+                return False
         self.owner = w.name
         self.count = 1
         return True
@@ -94,6 +100,82 @@ class SchedLock(object):
         self.release()
 
 
+class _CondToken(object):
+    """What a thread waiting on a SchedCondition is blocked on (``locked()`` until it is notified)."""
+
+    def __init__(self):
+        self.woken = False
+        self.notified = False
+
+    def locked(self):
+        return not self.woken
+
+
+class SchedCondition(object):
+    """Scheduler-aware ``threading.Condition``: a waiting thread is marked blocked (the controller runs another one);
+    ``notify`` makes it runnable again; a TIMED wait that nobody notifies times out once nothing else can run."""
+
+    def __init__(self, sched, lock=None):
+        self.sched = sched
+        self._lock = lock if isinstance(lock, SchedLock) else SchedLock(sched, reentrant=True)
+        self._waiters = []
+        self.acquire = self._lock.acquire
+        self.release = self._lock.release
+
+    def __enter__(self):
+        return self._lock.__enter__()
+
+    def __exit__(self, *a):
+        return self._lock.__exit__(*a)
+
+    def wait(self, timeout=None):
+        sched = self.sched
+        w = sched.current_worker() if sched is not None else None
+        if w is None:
+            return True
+        sched.yield_point("cond.wait")
+        token = _CondToken()
+        self._waiters.append(token)
+        owner, count = self._lock.owner, self._lock.count
+        self._lock.owner, self._lock.count = None, 0
+        w.state = "blocked"
+        w.blocked_on = token
+        w.timed_out = False
+        w.block_timed = timeout is not None
+        sched.switch_out(w)
+        if token in self._waiters:
+            self._waiters.remove(token)
+        # take the lock again (others may hold it now)
+        while self._lock.owner is not None:
+            w.state = "blocked"
+            w.blocked_on = self._lock
+            w.block_timed = False
+            sched.switch_out(w)
+        self._lock.owner, self._lock.count = w.name, max(1, count)
+        return token.notified
+
+    def wait_for(self, predicate, timeout=None):
+        result = predicate()
+        while not result:
+            if not self.wait(timeout) and timeout is not None:
+                return predicate()
+            result = predicate()
+        return result
+
+    def notify(self, n=1):
+        if self.sched is not None and self.sched.current_worker() is not None:
+            self.sched.yield_point("cond.notify")
+        for token in self._waiters[:n]:
+            token.woken = True
+            token.notified = True
+        del self._waiters[:n]
+
+    def notify_all(self):
+        self.notify(len(self._waiters))
+
+    notifyAll = notify_all
+
+
 ACTIVE = None    # the scheduler under which lomond objects are currently being created
 
 
@@ -112,6 +194,11 @@ class ThreadingShim(object):
         if ACTIVE is not None:
             return SchedLock(ACTIVE, reentrant=True)
         return self._real.RLock()
+
+    def Condition(self, lock=None):
+        if ACTIVE is not None:
+            return SchedCondition(ACTIVE, lock)
+        return self._real.Condition(lock)
 
     def __getattr__(self, name):
         return getattr(self._real, name)
@@ -250,6 +337,17 @@ class Scheduler(object):
         for name in self.order:
             w = self.workers.get(name)
             if w is not None and self.runnable(w):
+                return w
+        # nothing can run: a TIMED wait / acquire now times out (virtual time passes only when all else is still)
+        for name in self.order:
+            w = self.workers.get(name)
+            if w is not None and w.state == "blocked" and getattr(w, "block_timed", False):
+                w.timed_out = True
+                w.block_timed = False
+                w.state = "ready"
+                tok = w.blocked_on
+                if isinstance(tok, _CondToken):
+                    tok.woken = True
                 return w
         return None
 
